@@ -447,12 +447,16 @@ func (c *Choices) Next(n *Net) bool {
 // HoldSome: FIFO, except that the deliveries whose creation numbers are listed are held back until
 // nothing else can be delivered (one message arbitrarily late, overtaken by whole rounds of later traffic).
 type HoldSome struct {
-	IDs  []int
-	Held int // how many listed deliveries were actually overtaken by something
-	seen map[int]bool
+	Match func(d *Delivery) bool // alternative to IDs
+	IDs   []int
+	Held  int // how many listed deliveries were actually overtaken by something
+	seen  map[int]bool
 }
 
 func (h *HoldSome) held(d *Delivery) bool {
+	if h.Match != nil && h.Match(d) {
+		return true
+	}
 	for _, id := range h.IDs {
 		if d.ID == id {
 			return true
